@@ -98,6 +98,8 @@ class T:
 
     def key(self):
         r = self.n(8)
+        if r < 3:
+            return Val('a')
         if r < 5:
             return Val(self.pick(KEY_LITS))
         if r == 5:
@@ -521,11 +523,11 @@ def env_strategy(draw):
     dec = lambda: pick(decs[:7])  # noqa   (Decimals only inside containers)
     return {
         'n': pick(decs), 'm': pick(decs), 's': pick(strs), 'u': pick(strs),
-        'xs': [dec() for _ in range(n(5))], 'ys': [dec() for _ in range(n(3))],
+        'xs': [dec() for _ in range(2 + n(4))], 'ys': [dec() for _ in range(n(3))],
         'ws': [pick(strs) for _ in range(n(4))],
-        'dd': {pick(KEY_LITS): dec() for _ in range(n(4))},
+        'dd': {**({'a': dec()} if n(4) else {}), **{pick(KEY_LITS): dec() for _ in range(n(4))}},
         'b': bool(n(2)),
-        'nn': [[dec() for _ in range(n(3))] for _ in range(n(4))],
+        'nn': [[dec() for _ in range(1 + n(3))] for _ in range(1 + n(3))],
         'dl': {pick(['a', 'b', 'k']): [dec() for _ in range(n(3))] for _ in range(n(3))},
     }
 
